@@ -40,6 +40,7 @@ AllowSeq == <<result>> \o SetToSeq(Allowed \ {result})
 Emit ==
   Finished /\ run = MaxRuns => PrintT("CASE " \o ToJson(
      [in  |-> [shape |-> scn.shape, denial |-> scn.denial, qk |-> scn.qk,
+               anc |-> scn.anc, cfg |-> scn.cfg,
                adv |-> advlog, runs |-> [i \in 1..Len(hist) |-> hist[i].adv] \o <<advlog>>,
                tps |-> <<FALSE>> \o [i \in 1..Len(hist) |-> hist[i].tp],
                rss |-> <<FALSE>> \o [i \in 1..Len(hist) |-> hist[i].rs],
